@@ -606,7 +606,9 @@ func (p *Prog) altForms(name string) []string {
 		if i := strings.LastIndex(kr, "."); i >= 0 {
 			kb = kr[i+1:]
 		}
-		if kb == base && (strings.Contains(kr, ".") != strings.Contains(rest, ".")) {
+		// the same unexported name in the other form (method <-> function), or as a method of another receiver type
+		// of the package (a group of methods moved to a helper type)
+		if kb == base && (strings.Contains(kr, ".") != strings.Contains(rest, ".") || kr != rest) {
 			out = append(out, key)
 		}
 	}
